@@ -159,6 +159,7 @@ class _KillState:
     dead = False
     hook_at: int | None = None   # run hook_fn once, right after this many commits of the current delivery have completed
     hook_fn = None
+    fail_sql: str | None = None  # the next statement containing this text fails once with "database is locked" (busy timeout)
 
 
 def install_kill_shim() -> None:
@@ -170,6 +171,12 @@ def install_kill_shim() -> None:
     real = pc.sqlite3
 
     class KillConn(real.Connection):
+        def execute(self, sql, *a):  # noqa: ANN001, ANN201
+            if _KillState.fail_sql is not None and _KillState.fail_sql in sql:
+                _KillState.fail_sql = None
+                raise real.OperationalError("database is locked")
+            return super().execute(sql, *a)
+
         def commit(self):  # noqa: ANN201
             if self.in_transaction:
                 if _KillState.dead or (_KillState.armed is not None and _KillState.count >= _KillState.armed):
